@@ -3519,3 +3519,93 @@ func (f *FuncCFG) LocksHeld(entry LockSet) func(pt Point) LockSet {
 		return st
 	}
 }
+
+// callbackBody is a function defined "here" and handed on as a value, in any of its spellings: a
+// function literal, the literal a closure factory returns, or a method of a type of the analysed
+// package used as a method value (the struct-with-method form of a closure: what the literal
+// captured are the receiver's fields).
+type callbackBody struct {
+	Node  ast.Node // the literal, the factory call or the method-value selector
+	Type  *ast.FuncType
+	Body  *ast.BlockStmt
+	Decl  *ast.FuncDecl // the method or factory declaration (nil for a plain literal)
+	Recv  types.Object  // the method's receiver variable (method values only)
+	RecvX ast.Expr      // the expression the method value was taken from (method values only)
+}
+
+// Params: the callback's own parameters.
+func (cb callbackBody) Params(info *types.Info) []types.Object {
+	var out []types.Object
+	if cb.Type == nil || cb.Type.Params == nil {
+		return nil
+	}
+	for _, fl := range cb.Type.Params.List {
+		for _, nm := range fl.Names {
+			out = append(out, info.Defs[nm])
+		}
+	}
+	return out
+}
+
+// Outside: is o a variable the callback does not declare itself (captured state, or the receiver
+// carrying the captured state)?
+func (cb callbackBody) Outside(info *types.Info, o types.Object) bool {
+	if o == nil {
+		return false
+	}
+	for _, po := range cb.Params(info) {
+		if po == o {
+			return false
+		}
+	}
+	return !(o.Pos() >= cb.Body.Pos() && o.Pos() <= cb.Body.End())
+}
+
+// callbacksIn lists the callbacks that occur in root (not nested ones: a callback's own body is not
+// searched).
+func callbacksIn(p *Prog, info *types.Info, root ast.Node) []callbackBody {
+	var out []callbackBody
+	callee := map[ast.Expr]bool{}
+	ast.Inspect(root, func(n ast.Node) bool {
+		if c, ok := n.(*ast.CallExpr); ok {
+			callee[ast.Unparen(c.Fun)] = true
+		}
+		return true
+	})
+	ast.Inspect(root, func(n ast.Node) bool {
+		switch x := n.(type) {
+		case *ast.FuncLit:
+			out = append(out, callbackBody{Node: x, Type: x.Type, Body: x.Body})
+			return false
+		case *ast.CallExpr:
+			if t := info.TypeOf(x); t != nil {
+				if _, isSig := t.Underlying().(*types.Signature); isSig {
+					if lit, fd := closureFactory(p, info, x); lit != nil {
+						out = append(out, callbackBody{Node: x, Type: lit.Type, Body: lit.Body, Decl: fd})
+						return false
+					}
+				}
+			}
+		case *ast.SelectorExpr:
+			if callee[x] {
+				return true
+			}
+			sel := info.Selections[x]
+			if sel == nil || sel.Kind() != types.MethodVal {
+				return true
+			}
+			fn, _ := sel.Obj().(*types.Func)
+			if fn == nil {
+				return true
+			}
+			fd := p.decls().byFunc[fn.Origin()]
+			if fd == nil || fd.Body == nil || p.decls().infoOf[fd] != info {
+				return true
+			}
+			out = append(out, callbackBody{Node: x, Type: fd.Type, Body: fd.Body, Decl: fd, Recv: recvObj(info, fd), RecvX: x.X})
+			return false
+		}
+		return true
+	})
+	return out
+}
